@@ -24,6 +24,7 @@ import (
 	"testing"
 	"testing/fstest"
 	"time"
+	"verifsim/gen"
 
 	"github.com/miekg/dns"
 	"verifsim/core"
@@ -555,6 +556,25 @@ func privKeyLines(r interface{ IntN(int) int }) []string {
 		// key material of the wrong length for its algorithm (1, 16, 31, 33 and 64 octets; none at all)
 		base[2] = "PrivateKey: " + []string{"AQ==", "AAECAwQFBgcICQoLDA0ODw==", "AAECAwQFBgcICQoLDA0ODxAREhMUFRYXGBkaGxwdHg==", "AAECAwQFBgcICQoLDA0ODxAREhMUFRYXGBkaGxwdHh8g",
 			"AAECAwQFBgcICQoLDA0ODxAREhMUFRYXGBkaGxwdHh8gISIjJCUmJygpKissLS4vMDEyMzQ1Njc4OTo7PD0+Pw==", ""}[r.IntN(6)]
+	}
+	if r.IntN(8) == 0 {
+		// an RSA key file (five fields make the key)
+		base = strings.Split(strings.TrimSuffix(gen.KeyText[0].Priv, "\n"), "\n")
+	}
+	if r.IntN(5) == 0 {
+		// the file lacks a field the key cannot do without (it was cut short, or written by a tool that left it out)
+		var must []int
+		for i, l := range base {
+			switch strings.ToLower(strings.SplitN(l, ":", 2)[0]) {
+			case "privatekey", "modulus", "publicexponent", "privateexponent", "prime1", "prime2":
+				must = append(must, i)
+			}
+		}
+		if len(must) > 0 {
+			i := must[r.IntN(len(must))]
+			base = append(base[:i:i], base[i+1:]...)
+		}
+		return base
 	}
 	if r.IntN(4) == 0 {
 		base[r.IntN(len(base))] = []string{"garbage", "Algorithm: 99", "PrivateKey: !!!notbase64", "Private-key-format: v9.9", "NoColonHere", strings.Repeat("K", 3000) + ": v"}[r.IntN(6)]
@@ -1858,6 +1878,42 @@ func manyReadRRThroughInclude(sc *Scenario, res *core.Result, logf func(string, 
 	logf("%d single-record reads through an $INCLUDE", many.n)
 }
 
+// keyFieldMissing names a field that a key file of its (clearly stated) algorithm cannot do without and that the
+// text does not have, or "" - also when the text is not plainly "Field: value" lines.
+func keyFieldMissing(text string) string {
+	have := map[string]bool{}
+	alg := ""
+	for _, l := range strings.Split(text, "\n") {
+		if l == "" {
+			continue
+		}
+		kv := strings.SplitN(l, ": ", 2)
+		if len(kv) != 2 || strings.ContainsAny(kv[0], " \t") {
+			return ""
+		}
+		have[strings.ToLower(kv[0])] = true
+		if strings.EqualFold(kv[0], "algorithm") {
+			alg = strings.Fields(kv[1] + " x")[0]
+		}
+	}
+	if !have["private-key-format"] {
+		return ""
+	}
+	var need []string
+	switch alg {
+	case "13", "15":
+		need = []string{"privatekey"}
+	case "8":
+		need = []string{"modulus", "publicexponent", "privateexponent", "prime1", "prime2"}
+	}
+	for _, n := range need {
+		if !have[n] {
+			return n
+		}
+	}
+	return ""
+}
+
 // runSmall: ReadRR and ReadPrivateKey over a faulty reader.
 func runSmall(sc *Scenario, res *core.Result, logf func(string, ...any)) {
 	if len(sc.Files) == 0 {
@@ -1895,6 +1951,9 @@ func runSmall(sc *Scenario, res *core.Result, logf func(string, ...any)) {
 				if strings.Contains(f.Text(), "ECDSAP256") {
 					k.Algorithm = dns.ECDSAP256SHA256
 				}
+				if strings.Contains(f.Text(), "RSASHA256") {
+					k.Algorithm = dns.RSASHA256
+				}
 				p, err := k.ReadPrivateKey(in, f.Name)
 				s.out = fmt.Sprintf("%T", p)
 				if err != nil {
@@ -1919,6 +1978,14 @@ func runSmall(sc *Scenario, res *core.Result, logf func(string, ...any)) {
 	for _, s := range []small{ref, run} {
 		if s.pan != "" {
 			res.Fail("P2", "panic:"+firstFrame(s.pan), "%s panicked: %s", sc.Kind, s.pan)
+			return
+		}
+	}
+	if miss := keyFieldMissing(f.Text()); sc.Kind == "privkey" && miss != "" {
+		// a key file without a field that makes the key: there is no key in it to return
+		res.Bump("oracle.P3_key_file_without_key_material")
+		if ref.err == "" {
+			res.Fail("P3", "key-file-without-key-material-accepted", "ReadPrivateKey returned %s and no error for a key file that has no %s field", ref.out, miss)
 			return
 		}
 	}
